@@ -14,17 +14,18 @@ want = set(sys.argv[1:])
 for sid, e in TABLE.items():
     if want and sid not in want:
         continue
-    prop, i = sid.split("-")
-    src = Path(f"/tmp/seed/{prop}_out")
+    prop, i = sid.split("-")[0], sid.split("-")[-1]
+    root = e.get("root", "/tmp/seed")
+    src = Path(f"{root}/{prop}_out")
     if not (src / f"patch{i}.diff").exists():
         continue
     d = VERIF / "seeded" / sid
     d.mkdir(parents=True, exist_ok=True)
     shutil.copy(src / f"patch{i}.diff", d / "patch.diff")
-    demo = (src / f"demo{i}.py").read_text().replace(f"/tmp/seed/{prop}_out", "/var/tmp/seed_demo_out").replace(f"/tmp/seed/{prop}", "/repo")
+    demo = (src / f"demo{i}.py").read_text().replace(f"{root}/{prop}_out", "/var/tmp/seed_demo_out").replace(f"{root}/{prop}", "/repo")
     (d / "demo.py").write_text(demo)
     if (src / f"notes{i}.md").exists():
-        (d / "notes.md").write_text((src / f"notes{i}.md").read_text().replace(f"/tmp/seed/{prop}", "<worktree>"))
+        (d / "notes.md").write_text((src / f"notes{i}.md").read_text().replace(f"{root}/{prop}", "<worktree>"))
     meta = {
         "id": sid,
         "property": prop,
